@@ -13,6 +13,16 @@ NAMES = {
     'chython.algorithms._isomorphism': 'chython/algorithms/_isomorphism.pyx',
 }
 served = {}
+ISO = 'chython.algorithms._isomorphism'
+iso_enabled = [bool(__import__('os').environ.get('VERIF_PYX_ISO'))]
+
+
+def enable_iso(on=True):
+    """the bit-mask matcher model is opt-in (C09): without a compiled extension the library itself falls back to the
+    pure-Python matcher, and that is the behaviour every other check must see."""
+    iso_enabled[0] = on
+    if not on:
+        sys.modules.pop(ISO, None)
 
 
 class _Loader(importlib.abc.Loader):
@@ -36,7 +46,7 @@ class _Loader(importlib.abc.Loader):
 class _Finder(importlib.abc.MetaPathFinder):
     def find_spec(self, fullname, path, target=None):
         rel = NAMES.get(fullname)
-        if rel is None:
+        if rel is None or (fullname == ISO and not iso_enabled[0]):
             return None
         from .. import boot
         # a really compiled extension wins
